@@ -41,6 +41,14 @@ CHECKS = {
          "Generated windows (incl. ending at ESI 2^24-1), overlapping window pairs, plan instances and multi-block objects: window == singles, overlaps agree, IDs (block, K+s+i), payload == reference Enc over the encoder's intermediate symbols, encoders from equal plans ==, object packet list structure.",
          "Sampled; ties to the RFC symbol through C04's certified intermediate symbols.",
          "DESIGN.md 5/C18"),
+ "C02": ("proptest over arrival sequences; oracle = independent incremental GF(256) rank of the RFC constraint matrix, checked at every prefix, both directions",
+         "For generated arrival sequences (source/repair mixes, repair ESIs over the whole 24-bit range, overheads straddling the binary-only fast-path trigger, all three back-ends) the decoder's Some/None is compared after every packet with 'all source received or rank = L', the rank coming from an independent elimination over reference-generated rows; large blocks are checked with a structured rank routine at selected set sizes.",
+         "Rank oracle rows come from the reference model (trusted tables). Exact prefix oracle for K <= 300/600; structured rank up to K'=2000 quick / 10000 thorough.",
+         "DESIGN.md 5/C02"),
+ "C03": ("random sampling + exact one-sided binomial test at alpha=1e-9 against the advertised thresholds",
+         "3.3e6 (quick) / 6.6e7 (thorough) trials of exactly K+h distinct uniformly drawn symbols are decoded by the real decoder; the failure counts are tested, pooled and per stratum / K-group, against 1e-2, 1e-4, 1e-5. The measured rates (and their ~256x ratios) are reported.",
+         "Statistical: only degradations that push the rate above the advertised bound are detected; false-alarm probability < 1e-9 per test.",
+         "DESIGN.md 5/C03"),
  "C04": ("proptest differential vs. independent RFC 6330 reference encoder (plain GF(256) elimination); certificate checking for large K; table digests",
          "Generated (K, T, data, construction, ESIs): source packets, intermediate symbols and repair payloads are compared byte for byte with a reference written from the RFC that shares no code with the crate (direct solve up to K'=300 quick / 1500 thorough); for any K up to 56403 the crate's intermediate symbols are certified against all L constraint rows and repair payloads recomputed with the reference Tuple/Enc; V0..V3/Table 2 pinned by SHA-256, Deg checked on all 2^20 inputs.",
          "V0..V3 and Table 2 are trusted as of the pinned commit (no second source offline). Sampled over data/T/ESIs.",
